@@ -43,19 +43,16 @@ Lemma verif_target_consumed chk keep s k m cn ch s1 c1 ar :
   pending (pend_c0 cn) = Some ch /\ pending c1 = None /\ next_nonce s1 = next_nonce s.
 Proof.
   intros Hc Hv Har. unfold verif_target in Hv. rewrite Hc in Hv.
-  destruct (blocked s (c_addr cn)) eqn:Hb; [discriminate|].
-  destruct (banned s (c_addr cn)) eqn:Hn; [discriminate|]. cbn [orb] in Hv.
-  destruct ((h_cid m =? 0) && (rl_deny s || h_new m)) eqn:H0; [discriminate|].
+  destruct (gate_fail chk s (c_addr cn) m) eqn:Hg; [discriminate|].
+  destruct ((h_cid m =? 0) && h_new m) eqn:H0; [discriminate|].
   destruct (clients s (h_cid m)) as [cl|] eqn:Hcl; [|discriminate].
   destruct (expired cl) eqn:He; [discriminate|].
   destruct (h_resp m) as [r|] eqn:Hr; [|discriminate].
   assert (Hp : pending (pend_c0 cn) = Some ch) by (unfold pend_c0; destruct (c_cc cn); [exact Hv|discriminate]).
   split; [exact Hp|].
-  destruct Har as [Hg| | |cl'|cl'|cl' r'|cl' sec' ch'|cl' ch' r'|cl']; cbn.
-  - exfalso. destruct Hg as [Hg|[Hg|[Hg1 Hg2]]]; try congruence.
-    rewrite Hg1, Hg2 in H0. cbn in H0. discriminate.
-  - exfalso. match goal with H1 : h_cid m = 0, H2 : h_new m = true |- _ => rewrite H1, H2 in H0 end.
-    rewrite orb_true_r in H0. cbn in H0. discriminate.
+  destruct Har as [Hg'| | |cl'|cl'|cl' r'|cl' sec' ch'|cl' ch' r'|cl']; cbn.
+  - exfalso. congruence.
+  - exfalso. match goal with H1 : h_cid m = 0, H2 : h_new m = true |- _ => rewrite H1, H2 in H0 end. discriminate.
   - congruence.
   - exfalso. congruence.
   - exfalso. congruence.
@@ -114,74 +111,66 @@ Proof.
   unfold close, evict. cbn. destruct (conns s k) as [cn|]; [|reflexivity]. destruct (c_cc cn); reflexivity.
 Qed.
 
-(* one event: the counter never decreases; a pending challenge afterwards was pending on the same connection
-   before, or is new (>= the old counter) *)
+(* a handshake (with or without gate checks): the counter never decreases; a pending challenge afterwards was pending on
+   the same connection before, or is the new one of the acting connection (>= the old counter) *)
+Lemma handle_step_pending chk v s k m :
+  let s' := fst (handle chk v s k m) in
+  next_nonce s <= next_nonce s' /\
+  (forall k' n, pending_of s' k' = Some n ->
+                pending_of s k' = Some n \/ (k' = k /\ next_nonce s <= n /\ n < next_nonce s')).
+Proof.
+  cbv zeta. destruct m as [h|]; [|split; [cbn; lia|intros k' n H; left; exact H]].
+  destruct (conns s k) as [cn|] eqn:Hc; [|unfold Auth.handle; rewrite Hc; split; [cbn; lia|intros k' n H; left; exact H]].
+  destruct (auth chk (v_first_keeps v) s (pend_c0 cn) (c_addr cn) h) as [[s1 c1] ar] eqn:Ha.
+  pose proof (auth_cases hmac mf pb chk (v_first_keeps v) s (pend_c0 cn) (c_addr cn) h) as Har. rewrite Ha in Har.
+  destruct (handle_pending chk v s k h cn s1 c1 ar Hc Ha) as (Hn & Hk & Ho). cbv zeta in *.
+  pose proof (auth_result_pending _ _ _ _ _ _ _ _ _ Har) as Hp.
+  split; [rewrite Hn; destruct Hp as [[_ E]|[[_ E]|[_ E]]]; lia|].
+  intros k' n H. destruct (N.eq_dec k' k) as [->|Hne].
+  - rewrite Hk in H. rewrite Hn. rewrite (pending_of_conn s k cn Hc).
+    destruct Hp as [[E1 E2]|[[E1 E2]|[E1 E2]]]; rewrite E1 in H.
+    + left. exact H.
+    + right. injection H as <-. split; [reflexivity|lia].
+    + discriminate.
+  - destruct (Ho k' Hne) as [E|E]; rewrite E in H; [left; exact H|discriminate].
+Qed.
+
+(* one event: as above; at most one connection ([knew]) receives a new challenge *)
 Lemma step_pending v s e :
   let s' := fst (step v s e) in
   next_nonce s <= next_nonce s' /\
-  (forall k n, pending_of s' k = Some n -> pending_of s k = Some n \/ (next_nonce s <= n /\ n < next_nonce s')).
+  exists knew, forall k n, pending_of s' k = Some n ->
+                           pending_of s k = Some n \/ (k = knew /\ next_nonce s <= n /\ n < next_nonce s').
 Proof.
   destruct e; cbn [Auth.step fst]; cbv zeta;
-    try (split; [cbn; lia|intros k' n H; left; exact H]).
-  - (* EMsg *) destruct m as [h|]; [|split; [cbn; lia|intros k' n H; left; exact H]].
-    destruct (conns s k) as [cn|] eqn:Hc; [|unfold Auth.handle; rewrite Hc; split; [cbn; lia|intros k' n H; left; exact H]].
-    destruct (auth chk (v_first_keeps v) s (pend_c0 cn) (c_addr cn) h) as [[s1 c1] ar] eqn:Ha.
-    pose proof (auth_cases hmac mf pb chk (v_first_keeps v) s (pend_c0 cn) (c_addr cn) h) as Har. rewrite Ha in Har.
-    destruct (handle_pending chk v s k h cn s1 c1 ar Hc Ha) as (Hn & Hk & Ho). cbv zeta in *.
-    pose proof (auth_result_pending _ _ _ _ _ _ _ _ _ Har) as Hp.
-    split; [rewrite Hn; destruct Hp as [[_ E]|[[_ E]|[_ E]]]; lia|].
-    intros k' n H. destruct (N.eq_dec k' k) as [->|Hne].
-    + rewrite Hk in H. rewrite Hn. rewrite (pending_of_conn s k cn Hc).
-      destruct Hp as [[E1 E2]|[[E1 E2]|[E1 E2]]]; rewrite E1 in H.
-      * left. exact H.
-      * right. injection H as <-. lia.
-      * discriminate.
-    + destruct (Ho k' Hne) as [E|E]; rewrite E in H; [left; exact H|discriminate].
-  - (* ERestart *) split; [destruct lapsed; cbn; lia|intros k' n H; destruct lapsed; discriminate].
-  - (* EExpire *) destruct (clients s x); split; try (cbn; lia); intros k' n H; left; exact H.
-  - (* EDelAnon *) destruct (v_anon_delete v); split; try (cbn; lia); intros k' n H; left; exact H.
-  - (* ERekey *) unfold rekey. destruct (clients s x); split; try (cbn; lia); intros k' n H; left; exact H.
-  - (* ECorrupt *) destruct (clients s x); split; try (cbn; lia); intros k' n H; left; exact H.
-  - (* EClose *) split; [rewrite close_nonce; lia|]. intros k' n H.
+    try (split; [cbn; lia|exists 0; intros k' n H; left; exact H]).
+  - (* EMsg *) destruct (handle_step_pending true v s k m) as [H1 H2]. split; [exact H1|exists k; exact H2].
+  - (* ERestart *) split; [destruct lapsed; cbn; lia|exists 0; intros k' n H; destruct lapsed; discriminate].
+  - (* EExpire *) destruct (clients s x); (split; [cbn; lia|exists 0; intros k' n H; left; exact H]).
+  - (* EDelAnon *) destruct (v_anon_delete v); (split; [cbn; lia|exists 0; intros k' n H; left; exact H]).
+  - (* ERekey *) unfold rekey. destruct (clients s x); (split; [cbn; lia|exists 0; intros k' n H; left; exact H]).
+  - (* ECorrupt *) destruct (clients s x); (split; [cbn; lia|exists 0; intros k' n H; left; exact H]).
+  - (* EClose *) split; [rewrite close_nonce; lia|]. exists 0. intros k' n H.
     destruct (close_pending s k k') as [E|E]; rewrite E in H; [left; exact H|discriminate].
-  - (* EOpen *) split; [cbn [next_nonce set_conns]; rewrite close_nonce; lia|]. intros k' n H.
+  - (* EOpen *) split; [cbn [next_nonce set_conns]; rewrite close_nonce; lia|]. exists 0. intros k' n H.
     unfold pending_of in H. cbn [conns set_conns] in H.
     destruct (N.eq_dec k' k) as [->|Hn]; [rewrite upd_same in H; discriminate|].
     rewrite upd_other in H by assumption. fold (pending_of (close s k) k') in H.
     destruct (close_pending s k k') as [E|E]; rewrite E in H; [left; exact H|discriminate].
-  - (* ESetRecord *) destruct (clients s x); split; try (cbn; lia); intros k' n H; left; exact H.
+  - (* ESetRecord *) destruct (clients s x); (split; [cbn; lia|exists 0; intros k' n H; left; exact H]).
+  - (* EBody *) destruct (handle_step_pending false v s k (Some m)) as [H1 H2]. split; [exact H1|exists k; exact H2].
 Qed.
 
 Lemma step_pend_inv v s e : pend_inv s -> pend_inv (fst (step v s e)).
 Proof.
-  intros [H1 H2]. destruct (step_pending v s e) as [Hm Hp]. cbv zeta in *. split.
-  - intros k n H. destruct (Hp _ _ H) as [Ho|[_ Hl]]; [|exact Hl]. specialize (H1 _ _ Ho). lia.
+  intros [H1 H2]. destruct (step_pending v s e) as [Hm [knew Hp]]. cbv zeta in *. split.
+  - intros k n H. destruct (Hp _ _ H) as [Ho|(_ & _ & Hl)]; [|exact Hl]. specialize (H1 _ _ Ho). lia.
   - intros k1 k2 n Ha Hb.
-    destruct (Hp _ _ Ha) as [Ho1|[Hl1 Hu1]]; destruct (Hp _ _ Hb) as [Ho2|[Hl2 Hu2]].
+    destruct (Hp _ _ Ha) as [Ho1|(E1 & Hl1 & Hu1)]; destruct (Hp _ _ Hb) as [Ho2|(E2 & Hl2 & Hu2)].
     + eapply H2; eauto.
     + specialize (H1 _ _ Ho1). lia.
     + specialize (H1 _ _ Ho2). lia.
-    + (* both new: only the acting connection of a phase-1 message gets a new challenge *)
-      destruct e; cbn [Auth.step fst] in *;
-        try (exfalso; first [ specialize (H1 _ _ Ha); lia | fail ]).
-      all: try (exfalso; cbn in Ha; match type of Ha with pending_of ?t _ = _ => idtac end; fail).
-      all: destruct (N.eq_dec k1 k2) as [E|Hne]; [exact E|exfalso].
-      all: try (destruct m as [h|]; [|specialize (H1 _ _ Ha); lia];
-           destruct (conns s k) as [cn|] eqn:Hc; [|unfold Auth.handle in Ha; rewrite Hc in Ha; specialize (H1 _ _ Ha); lia];
-           destruct (auth chk (v_first_keeps v) s (pend_c0 cn) (c_addr cn) h) as [[s1 c1] ar] eqn:Hau;
-           destruct (handle_pending chk v s k h cn s1 c1 ar Hc Hau) as (_ & _ & Ho); cbv zeta in Ho;
-           destruct (N.eq_dec k1 k) as [->|Hn1];
-           [ destruct (Ho k2 (not_eq_sym Hne)) as [E|E]; rewrite E in Hb; [specialize (H1 _ _ Hb); lia|discriminate]
-           | destruct (Ho k1 Hn1) as [E|E]; rewrite E in Ha; [specialize (H1 _ _ Ha); lia|discriminate] ]).
-      all: try (destruct lapsed; discriminate Ha).
-      all: try (destruct (clients s x); specialize (H1 _ _ Ha); lia).
-      all: try (destruct (v_anon_delete v); specialize (H1 _ _ Ha); lia).
-      all: try (unfold rekey in Ha; destruct (clients s x); specialize (H1 _ _ Ha); lia).
-      all: try (destruct (close_pending s k k1) as [E|E]; rewrite E in Ha; [specialize (H1 _ _ Ha); lia|discriminate]).
-      all: try (unfold pending_of in Ha; cbn [conns set_conns] in Ha;
-                destruct (N.eq_dec k1 k) as [->|Hn1]; [rewrite upd_same in Ha; discriminate|];
-                rewrite upd_other in Ha by assumption; fold (pending_of (close s k) k1) in Ha;
-                destruct (close_pending s k k1) as [E|E]; rewrite E in Ha; [specialize (H1 _ _ Ha); lia|discriminate]).
+    + congruence.
 Qed.
 
 Lemma init_pend_inv : pend_inv init.
@@ -189,11 +178,11 @@ Proof. split; intros; discriminate. Qed.
 
 Definition avail (s : srv) (ch : N) : Prop := (exists k, pending_of s k = Some ch) \/ next_nonce s <= ch.
 
-Lemma verif_target_pending s k m ch : verif_target chk s k m = Some ch -> pending_of s k = Some ch.
+Lemma verif_target_pending chk s k m ch : verif_target chk s k m = Some ch -> pending_of s k = Some ch.
 Proof.
   unfold verif_target, pending_of. destruct (conns s k) as [cn|]; [|discriminate].
-  destruct (blocked s (c_addr cn) || banned s (c_addr cn)); [discriminate|].
-  destruct ((h_cid m =? 0) && (rl_deny s || h_new m)); [discriminate|].
+  destruct (gate_fail chk s (c_addr cn) m); [discriminate|].
+  destruct ((h_cid m =? 0) && h_new m); [discriminate|].
   destruct (clients s (h_cid m)) as [cl|]; [|discriminate]. destruct (expired cl); [discriminate|].
   destruct (h_resp m); [|discriminate]. auto.
 Qed.
@@ -202,20 +191,23 @@ Lemma targets_avail v es : forall s ch, In ch (targets v s es) -> avail s ch.
 Proof.
   induction es as [|e es IH]; intros s ch Hin; [contradiction|].
   cbn [Auth.targets] in Hin. apply in_app_or in Hin as [Hin|Hin].
-  - destruct e; try contradiction. destruct m as [m|]; [|contradiction].
-    destruct (verif_target chk s k m) as [c|] eqn:Hv; [|contradiction]. destruct Hin as [<-|[]].
-    left. exists k. apply verif_target_pending in Hv. exact Hv.
-  - destruct (IH _ _ Hin) as [[k Hk]|Hge]; destruct (step_pending v s e) as [Hm Hp]; cbv zeta in *.
-    + destruct (Hp _ _ Hk) as [Ho|[Hl _]]; [left; exists k; exact Ho|right; exact Hl].
+  - destruct e; try contradiction.
+    + destruct m as [m|]; [|contradiction].
+      destruct (verif_target true s k m) as [c|] eqn:Hv; [|contradiction]. destruct Hin as [<-|[]].
+      left. exists k. apply verif_target_pending in Hv. exact Hv.
+    + destruct (verif_target false s k m) as [c|] eqn:Hv; [|contradiction]. destruct Hin as [<-|[]].
+      left. exists k. apply verif_target_pending in Hv. exact Hv.
+  - destruct (IH _ _ Hin) as [[k Hk]|Hge]; destruct (step_pending v s e) as [Hm [knew Hp]]; cbv zeta in *.
+    + destruct (Hp _ _ Hk) as [Ho|(_ & Hl & _)]; [left; exists k; exact Ho|right; exact Hl].
     + right. lia.
 Qed.
 
-Lemma target_gone v s k m ch : pend_inv s -> verif_target chk s k m = Some ch ->
-  let s' := fst (step v s (EMsg k (Some m))) in
+Lemma target_gone chk v s k m ch : pend_inv s -> verif_target chk s k m = Some ch ->
+  let s' := fst (handle chk v s k (Some m)) in
   (forall k', pending_of s' k' <> Some ch) /\ next_nonce s' = next_nonce s.
 Proof.
-  intros [H1 H2] Hv. cbn [Auth.step]. cbv zeta.
-  pose proof (verif_target_pending _ _ _ _ Hv) as Hpk.
+  intros [H1 H2] Hv. cbv zeta.
+  pose proof (verif_target_pending _ _ _ _ _ Hv) as Hpk.
   destruct (conns s k) as [cn|] eqn:Hc; [|unfold pending_of in Hpk; rewrite Hc in Hpk; discriminate].
   destruct (auth chk (v_first_keeps v) s (pend_c0 cn) (c_addr cn) m) as [[s1 c1] ar] eqn:Ha.
   pose proof (auth_cases hmac mf pb chk (v_first_keeps v) s (pend_c0 cn) (c_addr cn) m) as Har. rewrite Ha in Har.
@@ -232,19 +224,23 @@ Lemma targets_nodup v es : forall s, pend_inv s -> NoDup (targets v s es).
 Proof.
   induction es as [|e es IH]; intros s Hinv; [constructor|].
   cbn [Auth.targets]. pose proof (IH _ (step_pend_inv v s e Hinv)) as Htl.
-  destruct e; try exact Htl. destruct m as [m|]; [|exact Htl].
-  destruct (verif_target chk s k m) as [ch|] eqn:Hv; [|exact Htl].
-  cbn [app]. constructor; [|exact Htl]. intro Hin.
-  destruct (target_gone v s k m ch Hinv Hv) as [Hgone Hnn]. cbv zeta in *.
-  destruct (targets_avail v es _ _ Hin) as [[k' Hk']|Hge].
-  - exact (Hgone k' Hk').
-  - destruct Hinv as [H1 _]. specialize (H1 _ _ (verif_target_pending _ _ _ _ Hv)). lia.
+  assert (Hone : forall chk k m ch, verif_target chk s k m = Some ch ->
+                 fst (step v s e) = fst (handle chk v s k (Some m)) -> NoDup (ch :: targets v (fst (step v s e)) es)).
+  { intros chk k m ch Hv He. constructor; [|exact Htl]. intro Hin.
+    destruct (target_gone chk v s k m ch Hinv Hv) as [Hgone Hnn]. cbv zeta in *. rewrite <- He in Hgone, Hnn.
+    destruct (targets_avail v es _ _ Hin) as [[k' Hk']|Hge].
+    - exact (Hgone k' Hk').
+    - destruct Hinv as [H1 _]. specialize (H1 _ _ (verif_target_pending _ _ _ _ _ Hv)). lia. }
+  destruct e; try exact Htl.
+  - destruct m as [m|]; [|exact Htl].
+    destruct (verif_target true s k m) as [ch|] eqn:Hv; [|exact Htl]. cbn [app]. eapply Hone; [exact Hv|reflexivity].
+  - destruct (verif_target false s k m) as [ch|] eqn:Hv; [|exact Htl]. cbn [app]. eapply Hone; [exact Hv|reflexivity].
 Qed.
 
 Theorem challenge_single_use v es : NoDup (targets v init es).
 Proof. apply targets_nodup. apply init_pend_inv. Qed.
 
-Theorem success_is_a_counted_verification v s k h : pend_inv s ->
+Theorem success_is_a_counted_verification chk v s k h : pend_inv s ->
   o_auth (snd (handle chk v s k (Some h))) = Some ASuccess ->
   exists ch, verif_target chk s k h = Some ch /\ ch < next_nonce s.
 Proof.
@@ -253,14 +249,13 @@ Proof.
   destruct (auth chk (v_first_keeps v) s (pend_c0 cn) (c_addr cn) h) as [[s1 c1] ar] eqn:Ha.
   pose proof (auth_cases hmac mf pb chk (v_first_keeps v) s (pend_c0 cn) (c_addr cn) h) as Har. rewrite Ha in Har.
   rewrite (handle_out_auth hmac mf pb chk v s k h cn Hc _ _ _ Ha) in Ho. injection Ho as ->.
-  inversion Har as [| | | | | |cl sec ch Hb Hn Hcl He Hst Hr Hp| |]; subst.
+  inversion Har as [| | | | | |cl sec ch Hg Hcl He Hst Hr Hp| |]; subst.
   exists ch. split.
-  - unfold verif_target. rewrite Hc, Hb, Hn, Hcl, He, Hr. cbn [orb].
-    assert (H0 : (h_cid h =? 0) && (rl_deny s || h_new h) = false).
-    { destruct (N.eqb_spec (h_cid h) 0) as [E|_]; [|reflexivity]. cbn [andb].
-      (* ClientID 0: the handler reached phase 2, so it was neither rate-limited nor a first connection *)
-      destruct (rl_deny s) eqn:Hrl; [exfalso|destruct (h_new h) eqn:Hnew; [exfalso|reflexivity]];
-        revert Ha; unfold Auth.auth; rewrite Hb, Hn, E, Hrl; cbn [N.eqb andb]; [|rewrite Hnew]; discriminate. }
+  - unfold verif_target. rewrite Hc, Hg, Hcl, He, Hr.
+    assert (H0 : (h_cid h =? 0) && h_new h = false).
+    { destruct ((h_cid h =? 0) && h_new h) eqn:E; [exfalso|reflexivity].
+      (* a first connection is answered ASuccessNew, never ASuccess *)
+      revert Ha. unfold Auth.auth. rewrite Hg, E. discriminate. }
     rewrite H0. unfold pend_c0 in Hp. destruct (c_cc cn); [exact Hp|discriminate].
   - apply (H1 k). rewrite (pending_of_conn s k cn Hc). exact Hp.
 Qed.
